@@ -386,6 +386,35 @@ def data_cases(ctx):
     return out
 
 
+def history_prelude():
+    """What a session does before it builds another prior: the public, read-only operations on a samples table (time of phase,
+    t0, wrap_K, pack, selections, reductions).  Which priors are accepted afterwards must not depend on it."""
+    import warnings
+
+    import astropy.units as u
+    from astropy.time import Time
+    from thejoker.samples import JokerSamples
+
+    with warnings.catch_warnings():
+        warnings.simplefilter("ignore")
+        s = JokerSamples(t_ref=Time(55000.0, format="mjd", scale="tcb"))
+        s["P"] = np.array([3.5, 7.25, 11.0]) * u.day
+        s["e"] = np.array([0.1, 0.2, 0.3]) * u.one
+        s["omega"] = np.array([10.0, 200.0, 300.0]) * u.deg
+        s["M0"] = np.array([0.5, 1.5, 2.5]) * u.rad
+        s["K"] = np.array([1.0, -2.0, 3.0]) * u.km / u.s
+        s["v0"] = np.array([0.0, 1.0, 2.0]) * u.km / u.s
+        try:
+            s.get_t0()
+            s.get_time_with_phase(phase=90 * u.deg)
+            s.copy().wrap_K()
+            s.pack()
+            s[1:].mean()
+            s.median_period()
+        except Exception:
+            pass  # their own behaviour is C17's subject
+
+
 def run(ctx):
     ctx.make_overlay(need_kernel=True)
     ctx.regen_all(needed=("py2v_prior.py",))  # Gen/PriorGen.v: JokerPrior.__init__'s validation loops and par_names as the source has them now
@@ -393,6 +422,7 @@ def run(ctx):
     if ok:
         ctx.build_props()
         ctx.build_props("Props/C18g.vo")  # the generated loops are the model: exact accept set, parameter order
+    history_prelude()
     cfgs = gen_configs(ctx)
     terms, kept, nt = run_prior_cases(ctx, cfgs)
     dc = data_cases(ctx)
